@@ -228,8 +228,99 @@ class RandomShim:
             raise HarnessError("normal(size=) unsupported")
         return _rng("normal", lambda: ctx().rng_normal(loc, scale), (loc, scale))
 
+    def default_rng(self, seed=None):
+        """an unseeded Generator is an environment (fresh arbitrary values); a seeded one is the real thing"""
+        if seed is not None:
+            return numpy.random.default_rng(seed)
+        return EnvRNG("np.random.default_rng()")
+
+    def RandomState(self, seed=None):
+        if seed is not None:
+            return numpy.random.RandomState(seed)
+        return EnvRNG("np.random.RandomState()")
+
+    def seed(self, *a, **kw):
+        return None
+
     def __getattr__(self, k):
         raise HarnessError("np.random.%s is not modelled" % k)
+
+
+class EnvRNG:
+    """a random source that is NOT numpy's seeded global generator: every draw is a fresh arbitrary value of the
+    environment (C14: runs must not depend on it)"""
+
+    def __init__(self, name):
+        self._name = name
+
+    def random(self, *a):
+        c = ctx()
+        v = c.env_value(self._name + ".random")
+        c.assume(v >= 0)
+        c.assume(v <= 1)
+        return v
+
+    random_sample = random
+
+    def uniform(self, a=0.0, b=1.0, *rest):
+        c = ctx()
+        v = c.env_value(self._name + ".uniform")
+        c.assume(v >= a)
+        c.assume(v <= b)
+        return v
+
+    def normal(self, *a, **kw):
+        return ctx().env_value(self._name + ".normal")
+
+    gauss = normal
+
+    def _int(self, lo, hi):
+        """arbitrary integer in [lo, hi) - every value is explored"""
+        c = ctx()
+        if hi - lo <= 0:
+            raise ValueError("empty range")
+        return lo + c.env_choice(hi - lo, self._name + ".int")
+
+    def integers(self, low, high=None, *a, **kw):
+        if high is None:
+            low, high = 0, low
+        return self._int(int(low), int(high))
+
+    def randint(self, a, b=None):
+        if isinstance(self, EnvRandomModule):
+            return self._int(int(a), int(b) + 1)  # random.randint is inclusive
+        if b is None:
+            a, b = 0, a
+        return self._int(int(a), int(b))
+
+    def randrange(self, a, b=None):
+        if b is None:
+            a, b = 0, a
+        return self._int(int(a), int(b))
+
+    def choice(self, seq, *a, **kw):
+        seq = list(seq) if hasattr(seq, "__len__") else list(range(int(seq)))
+        return seq[self._int(0, len(seq))]
+
+    def shuffle(self, x):
+        for i in range(len(x) - 1, 0, -1):
+            j = self._int(0, i + 1)
+            x[i], x[j] = x[j], x[i]
+
+    def permutation(self, x):
+        y = list(x) if hasattr(x, "__len__") else list(range(int(x)))
+        self.shuffle(y)
+        return y
+
+    def getrandbits(self, k):
+        return self._int(0, 2 ** min(int(k), 3))
+
+
+class EnvRandomModule(EnvRNG):
+    """Python's `random` module seen from a PyXAB module"""
+
+    def seed(self, *a, **kw):
+        return None
 
 
 class NpShim:
@@ -355,7 +446,7 @@ def uninstall():
 class ConcreteRNG:
     """context manager: numpy.random.* read the active context's tape (concrete mode)"""
 
-    NAMES = ["randint", "uniform", "choice", "normal"]
+    NAMES = ["randint", "uniform", "choice", "normal", "default_rng", "RandomState"]
 
     def __enter__(self):
         self.saved = {k: getattr(numpy.random, k) for k in self.NAMES}
@@ -403,7 +494,7 @@ def install_env(mods):
         for k in ("time", "random", "os", "uuid", "datetime", "secrets"):
             if hasattr(m, k) and isinstance(getattr(m, k), types.ModuleType):
                 _env_installed.append((m, k, getattr(m, k), True))
-                setattr(m, k, EnvShim(k))
+                setattr(m, k, EnvRandomModule("random") if k == "random" else EnvShim(k))
         for k, f in (("id", env_id), ("hash", env_hash)):
             had = k in m.__dict__
             _env_installed.append((m, k, m.__dict__.get(k), had))
